@@ -238,6 +238,24 @@ def joint_maps(desc, rec):
     return maps, clashes
 
 
+def inexact_pairs(desc, rec):
+    """the set of PHYSICAL pulse pairs between which the specification says the reduced (not the exact) kernel is used
+       under this description (Topology.tla ExactKernel: owners of the two pulses connected); a physical pulse is the
+       pair of physical half segments (wire, segment) it joins, whatever piece and direction describe them"""
+    order = sorted(range(len(desc.inp)), key=lambda k: (rec_tag(rec, desc, k)))
+
+    def phys(o, j):
+        pc = desc.pieces[order[o - 1]]
+        return (pc['w'], pc['s'] + j if pc['d'] > 0 else pc['s'] + pc['n'] - j + 1)
+    ident = []
+    for p in rec['pulses']:
+        a, b = phys(*p['sa']), phys(*p['sb'])
+        ident.append(frozenset([a, b]) if p['kind'] in ('I', 'J1', 'J2') else frozenset([a, 'ground']))
+    ex = rec['exact']
+    n = len(ident)
+    return {frozenset([ident[i], ident[j]]) for i in range(n) for j in range(n) if not ex[i][j]}, ident
+
+
 def rec_tag(rec, desc, k):
     """final tag of input object k (explicit, or automatic in input order after the largest)"""
     tags = [o['tag'] for o in desc.inp]
